@@ -22,7 +22,10 @@ RULE = (
     "yields exactly the coordinates the raw structure stores (each once), order/dimensions/format echo the "
     "request, the raw pos/crd arrays are canonical (sorted, duplicate-free, in range, exact lengths), pickling "
     "preserves the raw structure bit for bit, to_format preserves the content in the requested format, an "
-    "out-of-range coordinate raises. non-trivial = order >= 2 and >= 2 stored entries; distinct by (format, "
+    "out-of-range coordinate raises. Arguments documented as Iterable are also handed over as tuples and as one-shot "
+    "iterators/generators (with dimensions given). Isolation: the containers a tensor was built from and every "
+    "dictionary returned by to_dok are edited afterwards, and a second read through to_dok / items / == / to_format "
+    "must still give the supplied content. non-trivial = order >= 2 and >= 2 stored entries; distinct by (format, "
     "dimensions, coordinates, constructor)."
 )
 ASSUMPTIONS = [
@@ -40,12 +43,35 @@ def raw_stored(t):
     return raw, C.stored_coords(raw["levels"], raw["vals"], raw["dims"], raw["ordering"])
 
 
-def build(ctor, coords, vals, dims, fmt, infer=False):
-    """infer=True: ``dimensions`` is omitted and tensora has to infer it (largest coordinate + 1 per axis)."""
+def build(ctor, coords, vals, dims, fmt, infer=False, container="list", keep=None):
+    """infer=True: ``dimensions`` is omitted and tensora has to infer it (largest coordinate + 1 per axis).
+    container: how the (documented ``Iterable``) arguments are handed over when ``dimensions`` is given - 'list',
+    'tuple' or 'iter' (one-shot iterators / generators, which can be walked exactly once).  keep: a dict that receives
+    the mutable containers that were passed, so the caller can mutate them afterwards."""
     bridge.ensure_tensora()
     from tensora import Tensor
 
     order = len(dims)
+    if container != "list" and not infer and ctor in ("aos", "soa", "lol"):
+        if ctor == "aos" or (ctor == "soa" and order == 0):
+            if container == "tuple":
+                return Tensor.from_aos(tuple(coords), tuple(vals), dimensions=dims, format=fmt)
+            return Tensor.from_aos((c for c in coords), iter(list(vals)), dimensions=dims, format=fmt)
+        if ctor == "soa":
+            if container == "tuple":
+                return Tensor.from_soa(tuple(tuple(c[k] for c in coords) for k in range(order)), tuple(vals), dimensions=dims, format=fmt)
+            return Tensor.from_soa(tuple(iter([c[k] for c in coords]) for k in range(order)), (v for v in vals), dimensions=dims, format=fmt)
+        if ctor == "lol" and container == "tuple":
+            model = {}
+            for c, v in zip(coords, vals):
+                model[c] = model.get(c, 0.0) + v
+
+            def nest_t(prefix, k):
+                if k == order:
+                    return model.get(prefix, 0.0)
+                return tuple(nest_t(prefix + (i,), k + 1) for i in range(dims[k]))
+
+            return Tensor.from_lol(nest_t((), 0), dimensions=dims, format=fmt)
     if infer:
         if ctor == "dok":
             d = {}
@@ -59,9 +85,14 @@ def build(ctor, coords, vals, dims, fmt, infer=False):
         d = {}
         for c, v in zip(coords, vals):
             d[c] = d.get(c, 0.0) + v  # a dict cannot hold duplicates: pre-sum (model does the same)
+        if keep is not None:
+            keep["dok"] = d
         return Tensor.from_dok(d, dimensions=dims, format=fmt)
     if ctor == "aos":
-        return Tensor.from_aos(list(coords), list(vals), dimensions=dims, format=fmt)
+        lc, lv = list(coords), list(vals)
+        if keep is not None:
+            keep["coords"], keep["vals"] = lc, lv
+        return Tensor.from_aos(lc, lv, dimensions=dims, format=fmt)
     if ctor == "soa":
         soa = tuple([c[k] for c in coords] for k in range(order))
         if order == 0:
@@ -116,10 +147,21 @@ def check_construction(case):
             return [], {"skipped": "nothing to infer from"}
         dims = tuple(max(c[k] for c in coords) + 1 for k in range(order))
         d += f" dimensions omitted (expected inference {dims})"
+    container = case.get("container", "list")
+    if container != "list":
+        d += f" [{container} arguments]"
+    keep = {}
     try:
-        t = build(ctor, coords, vals, dims, fmt, infer=infer)
+        t = build(ctor, coords, vals, dims, fmt, infer=infer, container=container, keep=keep)
     except Exception as e:  # noqa: BLE001
         return [fail(f"constructor-raises:{type(e).__name__}", f"{d}: {e}"[:400])], {}
+    # the tensor owns its content: changing the containers it was built from changes nothing
+    if "dok" in keep:
+        keep["dok"][(0,) * order] = 99.0
+        keep["dok"].clear()
+    if "coords" in keep:
+        keep["coords"].append((0,) * order)
+        keep["vals"][:] = [7.0] * (len(keep["vals"]) + 1)
     if t.order != order or tuple(t.dimensions) != dims or t.format.deparse() != fmt_canon(fmt):
         fails.append(fail("metadata", f"{d}: order={t.order} dims={t.dimensions} format={t.format.deparse()}"))
     raw, stored = raw_stored(t)
@@ -145,6 +187,22 @@ def check_construction(case):
         fails.append(fail("items", f"{d}: items {sorted(items)[:5]} raw {sorted(stored.items())[:5]}"))
     if t.to_dok(explicit_zeros=True) != stored:
         fails.append(fail("to_dok-explicit-zeros", d))
+    # reading is repeatable and what it returns is the caller's to change: edit every returned dictionary, then read
+    # again through every reader (a read that hands out shared internal state, or caches and returns the cache, fails)
+    try:
+        for flag in (True, False):
+            got = t.to_dok(explicit_zeros=flag)
+            got[(0,) * order] = 123.0
+            for k in list(got)[1:]:
+                del got[k]
+        again = (t.to_dok(), t.to_dok(explicit_zeros=True), dict(t.items()))
+        if again != (nz, stored, stored):
+            fails.append(fail("read-back-not-repeatable", f"{d}: after editing the dictionaries returned by to_dok a second read gives "
+                              f"{sorted(again[0].items())[:4]} / {sorted(again[1].items())[:4]}, expected {sorted(nz.items())[:4]}"))
+        elif not (t == t) or (case.get("to_format") is None and {c: v for c, v in raw_stored(t.to_format(fmt))[1].items() if v != 0.0} != nz):
+            fails.append(fail("read-back-not-repeatable", f"{d}: == / to_format disagree with the stored content after the returned dictionaries were edited"))
+    except Exception as e:  # noqa: BLE001
+        fails.append(fail(f"read-back-raises:{type(e).__name__}", f"{d}: second read: {e}"[:300]))
     try:
         p = pickle.loads(pickle.dumps(t))
         rp = C.raw_of_tensor(p)
@@ -198,6 +256,8 @@ def labels_of(case):
         l.add("dimensions_inferred")
     if case.get("to_format"):
         l.add("to_format")
+    if case.get("container", "list") != "list":
+        l.add(f"container:{case['container']}")
     return l
 
 
@@ -229,6 +289,8 @@ def exhaustive_task(task):
             ctors = ["dok", "aos"] if mask % 3 else ["dok", "aos", "soa", "lol"]
             for ctor in ctors:
                 case = {"fmt": fmt, "dims": list(dims), "coords": [list(c) for c in chosen], "vals": vals, "ctor": ctor}
+                if ctor != "dok" and mask % 4 >= 2:
+                    case["container"] = "iter" if mask % 4 == 2 else "tuple"
                 if mask % 5 == 1:
                     alts = list(templates.all_formats(order))
                     case["to_format"] = alts[(mask // 5) % len(alts)]
@@ -273,6 +335,8 @@ def constructions(draw, tier):
     if ctor == "lol" and (order == 0 and False):
         ctor = "aos"
     case = {"fmt": fmt, "dims": list(dims), "coords": [list(c) for c in coords], "vals": vals, "ctor": ctor}
+    if ctor != "dok":
+        case["container"] = draw(st.sampled_from(["list", "list", "tuple", "iter", "iter"]))
     r = draw(st.integers(0, 9))
     if r < 4 and order > 0:
         m2 = tuple(draw(st.sampled_from("ds")) for _ in range(order))
